@@ -69,6 +69,22 @@ def textx_isinstance(obj: Any, obj_cls: type[Any], _visited: Any = None) -> bool
     return False
 
 
+def _own_attr(obj, name):
+    """
+    The value of an attribute the object itself carries, None if it has none.
+    (A meta-class has `_tx_position`, `_tx_filename` etc. of its own - those of
+    its rule in the grammar - which must not be taken for the position of an
+    instance that was never parsed, e.g. a hand-made builtin.)
+    """
+    # (a reference resolved with the RREL flag '+p' holds a proxy)
+    obj = getattr(obj, "_tx_obj", obj)
+    if name in getattr(obj, "__dict__", ()) or any(
+        name in getattr(cls, "__slots__", ()) for cls in type(obj).__mro__
+    ):
+        return getattr(obj, name, None)
+    return None
+
+
 def get_model(obj: T) -> Any:
     """
     Finds model root element for the given object.
@@ -1349,11 +1365,11 @@ class ReferenceResolver:
                             name=crossref.obj_name,
                             ref_pos_start=crossref.position,
                             ref_pos_end=crossref.position_end,
-                            def_file_name=getattr(
-                                get_model(resolved), "_tx_filename", None
+                            def_file_name=_own_attr(
+                                get_model(resolved), "_tx_filename"
                             ),
-                            def_pos_start=getattr(resolved, "_tx_position", None),
-                            def_pos_end=getattr(resolved, "_tx_position_end", None),
+                            def_pos_start=_own_attr(resolved, "_tx_position"),
+                            def_pos_end=_own_attr(resolved, "_tx_position_end"),
                         )
                     )
 
